@@ -168,7 +168,13 @@ StepNode(e) ==
                          [l |-> l, inv |-> "LastCommitValid", class |-> "a commit entry of cs.LastCommit disappeared"])
              \cup UNION {OwnBlockViol(obs, e.ownblocks[i]) : i \in DOMAIN e.ownblocks}
              \cup FailIf(~P2ValsetSchedule(obs), [l |-> l, inv |-> "ValsetSchedule", class |-> "validator sets of sm.State are not genesis + EndBlock updates with the two-height delay"])
-             \cup FailIf(~P3ProposerDeterministic(obs), [l |-> l, inv |-> "ProposerDeterministic", class |-> "proposer after a round skip differs from round-by-round rotation"])
+             \* reported at the step that breaks it; the narrow class (a skip of >= 2 rounds whose result is exactly the single
+             \* IncrementProposerPriority(k) call) is the known finding F1, anything else is not
+             \cup FailIf(~P3ProposerDeterministic(obs) /\ (obs.h # pre.h \/ P3ProposerDeterministic(pre)),
+                         [l |-> l, inv |-> "ProposerDeterministic",
+                          class |-> IF obs.h = pre.h /\ obs.s.round >= pre.s.round + 2 /\ SameSet(obs.rv, rvAsIs) /\ ~SameSet(rvAsIs, rvFixed)
+                                    THEN "proposer after a round skip differs from round-by-round rotation"
+                                    ELSE "proposer of the round is not the one the state prescribes"])
              \cup FailIf(~P3RotationNoUpdates(obs), [l |-> l, inv |-> "ProposerDeterministic", class |-> "rotation across heights"])
              \cup SignsViol(pre, obs, rel, sgn)
              \cup FailIf(e.ev # "Restart" /\ e.hh # pre.h /\ ~LateInNewHeight(pre, e) /\ (obs # pre \/ Len(e.out) # 0),
